@@ -22,6 +22,8 @@ import (
 	"strconv"
 	"strings"
 
+	"github.com/compose-spec/compose-go/v2/types"
+
 	"verif/harness/internal/core"
 	"verif/harness/internal/decomp"
 	"verif/harness/internal/diff"
@@ -357,6 +359,7 @@ func build(s *core.Shard, i int) *Case {
 	}
 
 	// ---- secrets / configs sourced from an environment variable: some of the variables are set ------
+	pastedOnly := map[string]string{}
 	for _, k := range []string{"secrets", "configs"} {
 		mv := root.Sub[k]
 		if mv == nil {
@@ -374,13 +377,26 @@ func build(s *core.Shard, i int) *Case {
 				// recorded finding (FINDINGS.md #3): only one case in five sets the variable of an included config
 				continue
 			}
-			if vn != "" && r.Intn(5) < 3 {
+			if vn == "" {
+				continue
+			}
+			switch w := r.Intn(6); {
+			case w < 3:
 				topEnv[vn] = "value-of-" + vn
 				if included {
 					c.Uses++
 					if k == "configs" && c.Input == "plain" {
 						c.Input = "included-config-from-set-variable"
 					}
+				}
+			case w == 3 && included && envOf(n) != nil:
+				// only the included project's env file defines it: the resource has that value "as loaded
+				// on its own", whatever the including project's environment says about the name
+				if _, taken := envOf(n)[vn]; !taken {
+					envOf(n)[vn] = "included-value-of-" + vn
+					pastedOnly[vn] = "included-value-of-" + vn
+					c.Uses++
+					s.Cover("secret_config_variable", k+" from the included project's env file")
 				}
 			}
 		}
@@ -624,7 +640,11 @@ func build(s *core.Shard, i int) *Case {
 
 	// a quarter of the cases run with a remote resource loader registered (it accepts nothing)
 	opts := ld.Opts{Profiles: []string{"*"}, RemoteLoader: i%4 == 3}
-	c.Pasted = ld.Case{Files: merge(common, map[string]string{"proj/compose.yaml": pastedDoc}), Dirs: dirs, ComposeFiles: []string{"proj/compose.yaml"}, WorkingDir: "proj", Env: topEnv, Opts: opts}
+	pastedEnv := topEnv
+	if len(pastedOnly) > 0 {
+		pastedEnv = merge(topEnv, pastedOnly)
+	}
+	c.Pasted = ld.Case{Files: merge(common, map[string]string{"proj/compose.yaml": pastedDoc}), Dirs: dirs, ComposeFiles: []string{"proj/compose.yaml"}, WorkingDir: "proj", Env: pastedEnv, Opts: opts}
 	c.Dist = ld.Case{Files: merge(common, distFiles), Dirs: dirs, ComposeFiles: []string{"proj/compose.yaml"}, WorkingDir: "proj", Env: topEnv, Opts: opts}
 	var shape []string
 	for _, n := range nodes[1:] {
@@ -771,9 +791,7 @@ func judge(s *core.Shard, c *Case) bool {
 			fmt.Sprintf("the pasted document loads, the model distributed over %d included files (%s) fails: %v", c.Nodes, c.Shape, dr.Err), files)
 		return false
 	}
-	o := diff.Default()
-	o.IgnoreField["ComposeFiles"] = true
-	if d := diff.Compare(pr.Project, dr.Project, o); d != "" {
+	if d := compareProjects(c, pr.Project, dr.Project); d != "" {
 		s.Violation(map[string]string{"kind": "include-differs", "path": diff.PathOf(d), "case": c.Kind, "input": c.Input},
 			fmt.Sprintf("project loaded through %d included files (%s) differs from the pasted document (pasted vs include): %s", c.Nodes, c.Shape, d), files)
 		return false
@@ -858,12 +876,38 @@ func witness(s *core.Shard, f core.Finding) (bool, string) {
 	if dr.Err != nil {
 		return true, "include side fails: " + dr.Err.Error()
 	}
-	o := diff.Default()
-	o.IgnoreField["ComposeFiles"] = true
-	if d := diff.Compare(pr.Project, dr.Project, o); d != "" {
+	if d := compareProjects(&c, pr.Project, dr.Project); d != "" {
 		return true, d
 	}
 	return false, "included and pasted models load to equal projects"
+}
+
+// compareProjects compares the pasted and the distributed project. When the pasted side was given
+// variables that the distributed side only finds in an included project's env file (a secret or
+// config sourced from such a variable), the project environments differ by exactly those names.
+func compareProjects(c *Case, pp, dp *types.Project) string {
+	o := diff.Default()
+	o.IgnoreField["ComposeFiles"] = true
+	extra := map[string]bool{}
+	for k := range c.Pasted.Env {
+		if _, ok := c.Dist.Env[k]; !ok {
+			extra[k] = true
+		}
+	}
+	if len(extra) > 0 {
+		o.IgnoreField["Project.Environment"] = true
+		for k, v := range dp.Environment {
+			if pv, ok := pp.Environment[k]; !ok || pv != v {
+				return fmt.Sprintf(".Environment[%s]: %q (present=%v) != %q", k, pv, ok, v)
+			}
+		}
+		for k := range pp.Environment {
+			if _, ok := dp.Environment[k]; !ok && !extra[k] {
+				return fmt.Sprintf(".Environment[%s]: only in the pasted project", k)
+			}
+		}
+	}
+	return diff.Compare(pp, dp, o)
 }
 
 func floor(tier string, m *core.Merged) []string {
